@@ -568,6 +568,12 @@ class IH5Group(IH5InnerNode):
         if nodes[-1]._gpath == path:
             raise ValueError("Cannot create group, it already exists!")
 
+        # create missing ancestors explicitly (h5py would create plain groups, i.e.
+        # virtual nodes, which stay hidden behind an earlier deletion of that path)
+        parent = path[: path.rfind("/")] or "/"
+        if nodes[-1]._gpath != parent:
+            self.create_group(parent)
+
         # remove "deleted" marker, if set at current path in current patch container
         if path in self._files[-1] and _node_is_del_mark(self._files[-1][path]):
             del self._files[-1][path]
